@@ -4,6 +4,7 @@ go 1.23
 
 require (
 	github.com/absolute8511/redcon v0.9.3
+	github.com/anishathalye/porcupine v1.3.0
 	github.com/gobwas/glob v0.2.3
 	github.com/youzan/ZanRedisDB v0.0.0
 	github.com/youzan/go-zanredisdb v0.6.3
